@@ -10,7 +10,7 @@
 
 /* ------------------------------------------------------------------ world */
 
-#define VF_NIFACE      2
+#define VF_NIFACE      4
 #define VF_ARENA_SIZE  (1u << 22)
 #define VF_MAXMTU      9216
 #define VF_TRACE_MAX   4096           /* port-call records per transition   */
